@@ -18,7 +18,7 @@ pub open spec fn fold_max(a: Seq<F>, k: int) -> F decreases k { if k <= 0 { f_ne
 #[verifier::opaque] pub open spec fn vm_norm(a: Seq<F>) -> F { f_sqrt(fold_dot(a, a, a.len() as int)) }
 // norm_inf: NaN as soon as an element is NaN, else the running max of the absolute values
 #[verifier::opaque] pub open spec fn vm_norm_inf(a: Seq<F>) -> F {
-    if exists|i: int| 0 <= i < a.len() && f_is_nan(a[i]) { f_nan() } else { fold_maxabs(a, a.len() as int) } }
+    if exists|i: int| 0 <= i < a.len() && f_is_nan(#[trigger] a[i]) { f_nan() } else { fold_maxabs(a, a.len() as int) } }
 #[verifier::opaque] pub open spec fn vm_norm_scaled(a: Seq<F>, b: Seq<F>) -> F { f_sqrt(fold_ss(a, b, vm_len2(a, b))) }
 #[verifier::opaque] pub open spec fn vm_norm_inf_scaled(a: Seq<F>, b: Seq<F>) -> F { fold_maxabs2(a, b, vm_len2(a, b)) }
 #[verifier::opaque] pub open spec fn vm_minimum(a: Seq<F>) -> F { fold_min(a, a.len() as int) }
